@@ -154,7 +154,13 @@ func implementationsOf(typeMap TypeMap) map[string][]*Object {
 	implementations := map[string][]*Object{}
 	for _, name := range names {
 		if ttype, ok := typeMap[name].(*Object); ok {
+			// an object may name the same interface more than once
+			declared := map[string]bool{}
 			for _, iface := range ttype.Interfaces() {
+				if declared[iface.Name()] {
+					continue
+				}
+				declared[iface.Name()] = true
 				implementations[iface.Name()] = append(implementations[iface.Name()], ttype)
 			}
 		}
